@@ -6,6 +6,8 @@
 set -u
 V=/verif
 export GOFLAGS=-mod=mod GOPROXY=off GOSUMDB=off GOTOOLCHAIN=local
+# instantiated proofs (C26: one per window size) are capped at 3 instances here: a mutant must already fail on those
+export GOVC_INST_MAX=3
 WT=$(mktemp -d /tmp/govc-selftest.XXXXXX)
 SV=$(mktemp -d /tmp/govc-selfverif.XXXXXX)
 trap 'git -C /repo worktree remove --force "$WT" >/dev/null 2>&1; rm -rf "$WT" "$SV"' EXIT
